@@ -18,6 +18,12 @@ Oracles
   with a crash every member of changed(last COMPLETED sync, current) was touched in the crashed run or in the rerun; the
                rerun completes and leaves the same auto.conf as the crash-free run; a further repeat touches nothing;
                the rest of the history satisfies the crash-free clause.
+State merging (sound because a fresh instance's sync is a deterministic function of the on-disk state and its (tree,
+configuration)): the crash points of sync i are executed once per distinct prefix h[:i+1] (by the history whose later states
+are the first state of the alphabet); if the recovered on-disk state (paths + bytes) equals the crash-free state, the repeat /
+continuation is the one already checked in the crash-free run of every history with that prefix, otherwise the continuation is
+executed for every suffix over the alphabet.
+
 A crash-phase finding is reported only if the crash-free run of the same history does not already show the same
 (kind, file) at the same sync, so a crash-free defect is not reported once more per crash point under another name.
 """
